@@ -265,7 +265,7 @@ R("partition_indexed0", 1, lambda c: {"f": c.fn("pred_i"), "which": c.rng.randra
 
 # sequential composition with pool sources
 R("repeat", 1, lambda c: {"n": c.rng.randrange(0, 4)}, lambda w, n, a, i: i[0].pipe(ops.repeat(a["n"])), ())
-R("retry", 1, lambda c: {"n": c.rng.randrange(1, 4)}, lambda w, n, a, i: i[0].pipe(ops.retry(a["n"])), ())
+R("retry", 1, lambda c: {"n": c.rng.randrange(0, 4)}, lambda w, n, a, i: i[0].pipe(ops.retry(a["n"])), ())
 R("catch_handler", 1, lambda c: {"pool": c.pool(2), "f": c.fn("inner")},
   lambda w, n, a, i: i[0].pipe(ops.catch(F(w, n, a, "f"))), {"cb", "pool"})
 R("while_do", 1, lambda c: {"f": {"k": "cond", "m": c.rng.randrange(0, 4)}}, lambda w, n, a, i: i[0].pipe(ops.while_do(F(w, n, a, "f"))), {"cb", "stateful"})
